@@ -26,6 +26,7 @@ def run(chk):
     )
     chk.not_decided = "that index lookup equals the documented linear rule for all route tables; url_for/_match inverse; match_info values."
     chk.explanation += " After the defect hunt: a fresh HTTPNotFound per request; matchers are built in the path_safe quoting form; domain sub-apps are not re-indexed; both domain rules lower-case the host."
+    chk.explanation += " Second hunt: add_prefix() feeds the matcher the path_safe form of the prefix and sub-applications hand on the requoted prefix; the Host header is normalised like the configured domain; every METH_ALL method can be registered through RouteDef."
     ur = repo.func(MOD, "UrlDispatcher.resolve")
     # ---- accumulate ------------------------------------------------------------------------------------------
     g = cfg_of(ur.node)
